@@ -82,6 +82,8 @@ class Scheduler(object):
         self.max_steps = max_steps
         self.horizon = horizon
         self.schedule = []  # name of the thread chosen at each step
+        self.clock_bump = None     # (thread name, k) or None, see monotonic()
+        self.clock_reads = 0
         self.solo = [None, 0, 0]   # [thread, consecutive steps as the only enabled thread, at virtual time]
         self.aborting = False
         self.done_evt = _rt.Event()
@@ -829,7 +831,19 @@ class Thread(object):
 
 def monotonic():
     s = SCHED
-    return (s.now / float(TICKS_PER_S)) if s else 0.0
+    if s is None:
+        return 0.0
+    cb = s.clock_bump
+    if cb is not None:
+        # directed exploration of "the clock moves while a thread runs": the k-th clock reading of the named thread
+        # finds the clock one tick further (virtual time otherwise only advances when nobody can run).  At most once per
+        # execution, so nothing is ever later than one tick because of it.
+        rec = s.me()
+        if rec is not None and rec.name == cb[0]:
+            s.clock_reads += 1
+            if s.clock_reads == cb[1]:
+                s.now += 1
+    return s.now / float(TICKS_PER_S)
 
 
 def sleep(d):
@@ -1087,7 +1101,7 @@ class Result(object):
 
 
 def run_execution(main, strategy, granularity="sync", visible=None, max_steps=50000, horizon=10 ** 8,
-                  setup=None, ops_log=False, wall_timeout=120, lock_log=False):
+                  setup=None, ops_log=False, wall_timeout=120, lock_log=False, clock_bump=None):
     """Run `main()` as the controlled main thread under `strategy`.  Returns a Result."""
     global SCHED
     install()
@@ -1102,6 +1116,8 @@ def run_execution(main, strategy, granularity="sync", visible=None, max_steps=50
         sched.ops_log = []
     if lock_log:
         sched.lock_log = []
+    if clock_bump:
+        sched.clock_bump = (clock_bump[0], int(clock_bump[1]))
     SCHED = sched
     try:
         _reset_module_state()
